@@ -290,7 +290,8 @@ def in_window_switches(path_states):
 def run_batch(ctx, exe, text, label, compare=True):
     """feed `text` (cfg + dfs/rand/sched commands) to the harness; compare with the model; collect monitor failures.
     returns (ok, violations[(sig, what, replay)], stats)"""
-    rc, out, err = ctx.run(exe, text=text, timeout=1500)
+    # a batch takes seconds (quick) to a few minutes (thorough DFS); the cap only bounds a hang of the real code
+    rc, out, err = ctx.run(exe, text=text, timeout=ctx.scale(240, 1500))
     lines = out.splitlines()
     viols, stats = [], []
     for l in lines:
@@ -302,7 +303,7 @@ def run_batch(ctx, exe, text, label, compare=True):
             stats.append(l[2:])
     if rc != 0:
         # crash / sanitizer abort / hang: locate the step with the tracing run
-        rc2, out2, err2 = ctx.run(exe, text=text, timeout=1500, env={"C09_TRACE": "1"})
+        rc2, out2, err2 = ctx.run(exe, text=text, timeout=ctx.scale(120, 600), env={"C09_TRACE": "1"})
         cfg, path = "", []
         for l in out2.splitlines():
             if l.startswith("cfg "):
